@@ -5,6 +5,7 @@
 -/
 import SqlizeModel.Spec.ProvedScope
 import SqlizeModel.Proofs.SpecUnchanged
+import SqlizeModel.Proofs.SchemaIgnoring
 
 namespace Sqlize
 open Spec Spec.Scope
@@ -82,14 +83,14 @@ theorem Proved.pairOK_spec (up : Bool) (dbO dbN : DB) (h : Proved.pairOK up dbO 
           exact ⟨c, hc, by simpa using hcc⟩
 
 theorem Proved.scripts_spec (g : Globals) (old new : List Stmt) (h : Proved.scripts g old new = true) :
-    g.dialect = .mysql ∧ g.ignoreOrder = false ∧ old.all Stmt.elemSafe = true ∧ new.all Stmt.elemSafe = true ∧
+    g.dialect = .mysql ∧ old.all Stmt.elemSafe = true ∧ new.all Stmt.elemSafe = true ∧
       old.all Stmt.plainOpts = true ∧ new.all Stmt.plainOpts = true := by
   unfold Proved.scripts at h
-  simp only [Bool.and_eq_true, beq_iff_eq, Bool.not_eq_true'] at h
-  obtain ⟨⟨⟨⟨⟨h1, h2⟩, h3⟩, h4⟩, h5⟩, h6⟩ := h
+  simp only [Bool.and_eq_true, beq_iff_eq] at h
+  obtain ⟨⟨⟨⟨h1, h3⟩, h4⟩, h5⟩, h6⟩ := h
   rw [Proved.all_eq _ _ _ Proved.elemSafe_eq] at h3 h4
   rw [Proved.all_eq _ _ _ Proved.plainOpts_eq] at h5 h6
-  exact ⟨h1, h2, h3, h4, h5, h6⟩
+  exact ⟨h1, h3, h4, h5, h6⟩
 
 /-- **inside the executable scope, `Spec.c01` holds of the printed up migration** -/
 theorem proved_up (g : Globals) (rc : Bool) (old new : List Stmt) (dbO dbN : DB)
@@ -98,9 +99,9 @@ theorem proved_up (g : Globals) (rc : Bool) (old new : List Stmt) (dbO dbN : DB)
     ∃ upm, modelUp g old new = .ok upm ∧ c01 g.ignoreOrder dbO dbN upm false = .ok () := by
   unfold Proved.up at h
   simp only [Bool.and_eq_true] at h
-  obtain ⟨hg, hio, ho, hn, hpo, hpn⟩ := Proved.scripts_spec g old new h.1
+  obtain ⟨hg, ho, hn, hpo, hpn⟩ := Proved.scripts_spec g old new h.1
   obtain ⟨hnm, hnofk, hncm, hboth⟩ := Proved.pairOK_spec true dbO dbN h.2
-  obtain ⟨d, out, hd, hU, ⟨db', he, heq⟩, hj⟩ := schema_spec_up g hg hio rc old new dbO dbN ho hn hpo hpn heo hen
+  exact schema_up_any g hg rc old new dbO dbN ho hn hpo hpn heo hen
     (fun tb htb => (hnm tb htb).2) hnofk hncm
     (fun a ha b hb e => by
       obtain ⟨x1, x2, x3, x4⟩ := hboth a ha b hb e
@@ -108,16 +109,6 @@ theorem proved_up (g : Globals) (rc : Bool) (old new : List Stmt) (dbO dbN : DB)
       intro dc hdc s hs o ho' hon hne
       obtain ⟨c, hc, hcN⟩ := x4 s hs o ho' hon hne
       exact ⟨c, hc, fun hcd => hdc c hcd hcN⟩)
-  refine ⟨out.flatten, ?_, ?_⟩
-  · unfold modelUp
-    simp only [hd, hU, bind, Except.bind, pure, Except.pure]
-  · have hfind : out.flatten.find? (fun s => !justified dbO dbN s) = none := by
-      apply List.find?_eq_none.mpr
-      intro s hs
-      rw [hj s hs]; simp
-    unfold c01 migrates allJustified
-    rw [hio]
-    simp only [he, heq, if_true, hfind, bind, Except.bind, Bool.false_eq_true, if_false]
 
 /-- **inside the executable scope, `Spec.c02` holds of the printed down migration** -/
 theorem proved_down (g : Globals) (rc : Bool) (old new : List Stmt) (dbO dbN : DB)
@@ -126,9 +117,9 @@ theorem proved_down (g : Globals) (rc : Bool) (old new : List Stmt) (dbO dbN : D
     ∃ dn, modelDown g old new = .ok dn ∧ c02 g.ignoreOrder dbO dbN dn false = .ok () := by
   unfold Proved.down at h
   simp only [Bool.and_eq_true] at h
-  obtain ⟨hg, hio, ho, hn, hpo, hpn⟩ := Proved.scripts_spec g old new h.1
+  obtain ⟨hg, ho, hn, hpo, hpn⟩ := Proved.scripts_spec g old new h.1
   obtain ⟨hnm, hnofk, hncm, hboth⟩ := Proved.pairOK_spec false dbO dbN h.2
-  obtain ⟨d, out, hd, hU, ⟨db', he, heq⟩, hj⟩ := schema_spec_down g hg hio rc old new dbO dbN ho hn hpo hpn heo hen
+  exact schema_down_any g hg rc old new dbO dbN ho hn hpo hpn heo hen
     (fun tb htb => (hnm tb htb).2) hnofk hncm
     (fun a ha b hb e => by
       obtain ⟨x1, x2, x3, x4⟩ := hboth a ha b hb e
@@ -136,16 +127,6 @@ theorem proved_down (g : Globals) (rc : Bool) (old new : List Stmt) (dbO dbN : D
       intro dc hdc s hs o ho' hon hne
       obtain ⟨c, hc, hcO⟩ := x4 s hs o ho' hon hne
       exact ⟨c, hc, fun hcd => hdc c hcd hcO⟩)
-  refine ⟨out.flatten, ?_, ?_⟩
-  · unfold modelDown
-    simp only [hd, hU, bind, Except.bind, pure, Except.pure]
-  · have hfind : out.flatten.find? (fun s => !justified dbN dbO s) = none := by
-      apply List.find?_eq_none.mpr
-      intro s hs
-      rw [hj s hs]; simp
-    unfold c02 migrates allJustified
-    rw [hio]
-    simp only [he, heq, if_true, hfind, bind, Except.bind, Bool.false_eq_true, if_false]
 
 /-- **inside both, `Spec.c03` holds of the two printed migrations** -/
 theorem proved_both (g : Globals) (rc : Bool) (old new : List Stmt) (dbO dbN : DB)
@@ -154,10 +135,10 @@ theorem proved_both (g : Globals) (rc : Bool) (old new : List Stmt) (dbO dbN : D
     ∃ upm dn, modelUp g old new = .ok upm ∧ modelDown g old new = .ok dn ∧ c03 dbO dbN upm dn = .ok () := by
   unfold Proved.both Proved.up Proved.down at h
   simp only [Bool.and_eq_true] at h
-  obtain ⟨hg, hio, ho, hn, hpo, hpn⟩ := Proved.scripts_spec g old new h.1.1
+  obtain ⟨hg, ho, hn, hpo, hpn⟩ := Proved.scripts_spec g old new h.1.1
   obtain ⟨hnm, hnofk, hncm, hbothU⟩ := Proved.pairOK_spec true dbO dbN h.1.2
   obtain ⟨_, _, _, hbothD⟩ := Proved.pairOK_spec false dbO dbN h.2.2
-  exact schema_c03 g hg hio rc old new dbO dbN ho hn hpo hpn heo hen (fun tb htb => (hnm tb htb).2) hnofk hncm
+  exact schema_c03_any g hg rc old new dbO dbN ho hn hpo hpn heo hen (fun tb htb => (hnm tb htb).2) hnofk hncm
     (fun a ha b hb e => by
       obtain ⟨x1, x2, x3, x4⟩ := hbothU a ha b hb e
       obtain ⟨_, _, _, y4⟩ := hbothD a ha b hb e
